@@ -2,7 +2,7 @@
 From Coq Require Import List NArith ZArith Bool.
 From V.Lib Require Import Base Hex.
 From V.Gen Require Import C03Tables.
-From V.C03 Require Import HexLit Codec Model Spec Corr Wf Proofs Bridge Finding.
+From V.C03 Require Import HexLit Codec Model Spec Corr Wf Proofs Bridge BridgeEnc Finding.
 Import ListNotations.
 Local Open Scope N_scope.
 
@@ -45,7 +45,7 @@ Proof. exact amount_fields_in_range. Qed.
 
 (** conditional fields are present exactly when their bundle is non-empty (so "bundle = None
     iff empty" loses nothing): v5 Sapling, Orchard-shaped bundles, v1-v4 *)
-Theorem C03_sapling5_presence : forall valid (s : ty (c_sapling5 valid)),
+Theorem C03_sapling5_presence : forall valid (s : sapling5_t),
   wf (c_sapling5 valid) s = true ->
   let ss := fst (fst s) in let os := snd (fst s) in
   let vb := fst (snd s) in let anchor := fst (snd (snd s)) in
@@ -55,18 +55,18 @@ Theorem C03_sapling5_presence : forall valid (s : ty (c_sapling5 valid)),
   (bsig = None <-> ss = [] /\ os = []) /\
   length sproofs = length ss /\ length ssigs = length ss /\ length oproofs = length os.
 Proof. exact sapling5_presence. Qed.
-Theorem C03_orchard_presence : forall valid bv (o : ty (c_orchard valid bv)),
+Theorem C03_orchard_presence : forall valid bv (o : orchard_t),
   wf (c_orchard valid bv) o = true ->
   (snd o = None <-> fst o = []) /\
   (forall r, snd o = Some r -> bv <> None /\ length (fst (snd (snd (snd (snd r))))) = length (fst o)).
 Proof. exact orchard_presence. Qed.
-Theorem C03_legacy_presence : forall valid v (x : ty (c_legacy valid v)),
+Theorem C03_legacy_presence : forall valid v (x : legacy_t),
   wf (c_legacy valid v) x = true ->
   let expiry := fst (snd (snd x)) in let sap := fst (snd (snd (snd x))) in
   let spr := fst (snd (snd (snd (snd x)))) in let bsig := snd (snd (snd (snd (snd x)))) in
   (expiry = None <-> has_overwinter v = false) /\ (sap = None <-> has_sapling v = false) /\
   (spr = None <-> has_sprout v = false) /\
-  (bsig = None <-> sap4_nonempty valid sap = false) /\
+  (bsig = None <-> sap4_nonempty sap = false) /\
   (forall js, spr = Some js -> (snd js = None <-> fst js = [])).
 Proof. exact legacy_presence. Qed.
 
@@ -118,6 +118,16 @@ Proof. exact (@c_flagopt_ok). Qed.
 Theorem C03_bridge : forall H c,
   is_tx_or_hdr c = true -> wf_case c = true -> run_caseH H c = true -> prop_caseH H c = true.
 Proof. exact bridge. Qed.
+
+(** the same for the CompactSize / Vector<u8> / Optional<u32> cases of the in-tree encoding crate:
+    the encoder-only specifications of Spec.v coincide with the codecs *)
+Theorem C03_bridge_enc : forall H c,
+  is_enc_case c = true -> wf_case c = true -> run_caseH H c = true -> prop_caseH H c = true.
+Proof. exact bridge_enc. Qed.
+Theorem C03_compact_spec : forall mx b,
+  cs_spec (Some mx) b = consumed_view b (dec (c_compact mx) b) /\
+  cs_spec None b = consumed_view b (dec c_compact_raw b).
+Proof. exact (fun mx b => conj (cs_spec_bounded mx b) (cs_spec_raw b)). Qed.
 
 (** ... and the accepted prefix is the unique encoding of a well-formed model transaction
     (canonical, bounded length prefixes) whose amounts are all in range. *)
